@@ -6,14 +6,14 @@ import json
 import os
 import vlib
 
-GENS = {17: "MC_C05_enc_p17", 193: "MC_C05_enc_p193", 40961: "MC_C05_enc_p40961", 12289: "MC_C05_enc_p12289", "big193": "MC_C05_encbig_p193"}
+GENS = {17: "MC_C05_enc_p17", 193: "MC_C05_enc_p193", 40961: "MC_C05_enc_p40961", 12289: "MC_C05_enc_p12289", "big193": "MC_C05_encbig_p193", "huge193": "MC_C05_enchuge_p193"}
 RUNS = {17: "MC_C05_p17", 193: "MC_C05_q_p193", 40961: "MC_C05_q_p40961"}
 
 
 def scenarios(chk, p, kind="enc"):
     """TLC-generated scenario lines (circuit x measurement, or circuit x input vector)."""
     cfg = GENS[p] if kind == "enc" else RUNS[p]
-    p = 193 if p == "big193" else p
+    p = 193 if p in ("big193", "huge193") else p
     fn = os.path.join(vlib.WORK, cfg + ".scn.ndjson")
     res = vlib.run_tlc("MC_C05", cfg, workers=16, timeout=1500, tag="scn" + cfg)
     vlib.tlc_ok(res, cfg)
